@@ -17,7 +17,7 @@ import (
 // GHQuery is a symbolic getheaders request.
 type GHQuery struct {
 	Loc      []int `json:"loc"`      // Order indices (mod len); negative = unknown hash
-	StopKind int   `json:"stopKind"` // 0 zero, 1 longest (StopArg = height index), 2 stale, 3 orphan, 4 unknown, 5 genesis, 6 equal to start, 7 start+k ahead
+	StopKind int   `json:"stopKind"` // 0 zero, 1 longest (StopArg = height index), 2 stale, 3 orphan, 4 unknown, 5 genesis, 6 equal to start, 7 start+k ahead, 8 the StopArg-th header in arrival order
 	StopArg  int   `json:"stopArg"`
 }
 
@@ -25,6 +25,7 @@ type GHQuery struct {
 type C13Plan struct {
 	Hist    *hist.Plan `json:"hist"`
 	Queries []GHQuery  `json:"queries"`
+	Sweep   bool       `json:"sweep,omitempty"` // small stores: every stored header as stop hash, repeatedly during the history
 }
 
 // checkLocator is the validity predicate of a block locator (not a transcription of the builder).
@@ -122,6 +123,8 @@ func resolveGH(t *model.Tree, q GHQuery) (loc []*chainhash.Hash, stop chainhash.
 		stopNode = t.Genesis
 	case 6:
 		stopNode = path[start]
+	case 8:
+		stopNode = t.Order[q.StopArg%len(t.Order)] // the StopArg-th header in arrival order, whatever its label is now
 	case 7:
 		k := int(start) + 1 + q.StopArg%5
 		if k >= len(path) {
@@ -228,7 +231,7 @@ func runC13(p *C13Plan) (*stats.Case, error) {
 		return nil, fmt.Errorf("infra: %w", err)
 	}
 	defer r.Close()
-	locChecks := 0
+	locChecks, sweeps := 0, 0
 	for step, idx := range p.Hist.Delivery {
 		if idx < 0 || idx >= len(r.Headers) {
 			continue
@@ -241,6 +244,19 @@ func runC13(p *C13Plan) (*stats.Case, error) {
 				return nil, fmt.Errorf("after step %d (tip height %d): %w", step, r.T.Best.Height, err)
 			}
 			locChecks++
+		}
+		// "at any moment": on small stores the same requests are answered again and again while the tree grows and
+		// reorganises - every stored header as stop hash, from genesis and from the first header on
+		if len(p.Hist.Delivery) <= 40 && p.Sweep && (step%3 == 2 || step == len(p.Hist.Delivery)-1) {
+			for k := range r.T.Order {
+				for _, from := range []int{0, 1} {
+					q := GHQuery{Loc: []int{from}, StopKind: 8, StopArg: k}
+					if _, err := evalGH(r, q); err != nil {
+						return nil, fmt.Errorf("after step %d, sweep query %+v: %w", step, q, err)
+					}
+					sweeps++
+				}
+			}
 		}
 	}
 	ntq, capHit := 0, 0
@@ -259,6 +275,7 @@ func runC13(p *C13Plan) (*stats.Case, error) {
 	cl := histClasses(p.Hist, r.T, 0, 0, 0)
 	cl["locator_checks"] = int64(locChecks)
 	cl["getheaders_queries"] = int64(len(p.Queries))
+	cl["getheaders_sweep_queries_during_the_history"] = int64(sweeps)
 	cl["nontrivial_queries"] = int64(ntq)
 	cl["store_above_cap"] = int64(capHit)
 	return &stats.Case{Sig: stats.Sig(planSig(p.Hist), fmt.Sprint(p.Queries)), Nontrivial: ntq > 0, Classes: cl, Sample: sampleC13(p)}, nil
@@ -305,7 +322,7 @@ var propC13 = Prop[*C13Plan]{
 	Gen: func(t *rapid.T) *C13Plan {
 		o := hist.GenOpts{MaxSpecs: quickThorough(60, 120), MinSpecs: 3, NoForbidden: true}
 		h := hist.Gen(t, o)
-		return &C13Plan{Hist: h, Queries: genGHQueries(t, rapid.IntRange(20, quickThorough(60, 200)).Draw(t, "nq"))}
+		return &C13Plan{Hist: h, Sweep: rapid.Bool().Draw(t, "sweep"), Queries: genGHQueries(t, rapid.IntRange(20, quickThorough(60, 200)).Draw(t, "nq"))}
 	},
 	Run: runC13,
 }
